@@ -133,6 +133,7 @@ def run(ck):
                       "the tags pass through a collection that merges duplicates (%s) before encode_tags can refuse them: an attribute can be revealed and committed to at the same time" % it[:80], f.loc(bi))
     ck.floor("DEFUSE", "encode_tags call sites", net, 5)
     conditional_transcript_sweep(ck, crate("rs", "concordium_base"), re.compile(r"concordium_base::id::(chain|identity_provider|utils|identity_attributes_credentials)::"), floor=3)
+    gated_verification_sweep(ck, crate("rs", "concordium_base"), re.compile(r"concordium_base::id::(chain|identity_provider|utils|identity_attributes_credentials)::"), floor=8)
     eq_polarity_sweep(ck, crate("rs", "concordium_base"), re.compile(r"concordium_base::id::(chain|identity_provider|utils|identity_attributes_credentials)::"), re.compile(r"(verify|verifier|validate|check)[a-z_0-9]*(::\{closure#\d+\})*$"))
     rejecting_checks_floor(ck, crate("rs", "concordium_base"), re.compile(r"concordium_base::id::(chain|identity_provider|utils|identity_attributes_credentials)::"), re.compile(r"(verify|verifier|validate|check|extract_commit_message)[a-z_0-9]*(::\{closure#\d+\})*$"), "C08")
 
